@@ -87,19 +87,9 @@ func c16Oracle(sc *Scenario, r *Result) *Violation {
 	fired := strings.Join(firedFaults(sc, r), "+")
 	// 1. termination without a runtime fatal error
 	if r.Budget {
-		fs := stackFuncs(r.Stderr)
-		top := "?"
-		if len(fs) > 0 {
-			top = fs[0]
-			for _, f := range fs { // skip the clock itself
-				if f != "main.verifTick" {
-					top = f
-					break
-				}
-			}
-		}
-		return &Violation{Class: "budget", Signature: "budget@" + top,
-			Detail: fmt.Sprintf("fc did not terminate within the step budget of %d ticks; innermost frames: %v", sc.TickBudget, head(fs, 6))}
+		owner, frames := loopOwner(r.Stderr)
+		return &Violation{Class: "budget", Signature: "budget@" + owner,
+			Detail: fmt.Sprintf("fc did not terminate within the step budget of %d ticks; the two stack samples share (outermost first) ... %v", sc.TickBudget, frames)}
 	}
 	if r.Signal != "" {
 		return &Violation{Class: "fatal", Signature: "fatal:signal:" + r.Signal, Detail: "fc was killed by signal " + r.Signal + "\n" + tail(r.Stderr, 600)}
@@ -142,7 +132,11 @@ func c16Oracle(sc *Scenario, r *Result) *Violation {
 				return &Violation{Class: "exit0-incomplete", Signature: "exit0-incomplete:nowrite@" + fired,
 					Detail: fmt.Sprintf("fc exited 0 but never wrote %s", o)}
 			case !w.Ok || w.Stored != w.Len:
-				return &Violation{Class: "exit0-incomplete", Signature: "exit0-incomplete:failedwrite@" + fired,
+				cause := w.Fault
+				if cause == "" {
+					cause = "write_" + w.Why
+				}
+				return &Violation{Class: "exit0-incomplete", Signature: "exit0-incomplete:failedwrite@" + cause,
 					Detail: fmt.Sprintf("fc exited 0 although writing %s failed (%d of %d bytes stored, fault %q %s)", o, w.Stored, w.Len, w.Fault, w.Why)}
 			}
 		}
@@ -176,8 +170,43 @@ func head(xs []string, n int) []string {
 }
 
 func judgeC16(c *Ctx, sc *Scenario) *Violation {
+	if sc.Real {
+		s := sc.Clone()
+		s.Real = false
+		return c16RealOracle(sc, c.sim(c.B.FcVerif, s), RunReal(c.B.FcOff, sc, c.Work))
+	}
 	r := c.sim(c.B.FcVerif, sc)
 	return c16Oracle(sc, r)
+}
+
+// c16RealOracle: what the shipped fc leaves on a real directory must be what the simulated run of the same
+// fault-free scenario stored: same accept/reject, every output file with exactly the bytes handed to WriteFile
+// (so bytes of an older, longer output that survive behind the new text are seen), nothing else touched.
+func c16RealOracle(sc *Scenario, r *Result, rr *RealResult) *Violation {
+	if rr.Watchdog {
+		harnessFail("watchdog on the real-directory run")
+	}
+	if (r.Exit == 0) != (rr.Exit == 0) {
+		return &Violation{Class: "real-disk", Signature: "real-disk:exit",
+			Detail: fmt.Sprintf("the simulated run exits %d, the shipped fc on a real directory exits %d: %s", r.Exit, rr.Exit, tail(rr.Stdout+rr.Stderr, 300))}
+	}
+	final := r.FinalFiles(sc)
+	for p, b := range rr.Changed {
+		if want, ok := final[p]; !ok || string(want) != string(b) {
+			return &Violation{Class: "real-disk", Signature: "real-disk:content",
+				Detail: fmt.Sprintf("on a real directory the shipped fc left %s with %d bytes; the bytes it handed to WriteFile are %d: %s", p, len(b), len(want), diffSummary(want, b))}
+		}
+	}
+	for p, b := range r.Written() {
+		old, had := sc.Disk.Get(p)
+		if had && string(old) == string(b) {
+			continue
+		}
+		if _, ok := rr.Changed[p]; !ok {
+			return &Violation{Class: "real-disk", Signature: "real-disk:missing", Detail: "the simulated run wrote " + p + ", the shipped fc on a real directory did not"}
+		}
+	}
+	return nil
 }
 
 func shrinkC16(c *Ctx, sc *Scenario, v *Violation, judge Judge) (*Scenario, *Violation) {
@@ -278,12 +307,36 @@ func c16BaseScenario(c *Ctx, r *common.Rng, run int, pools [][]*Program) *Scenar
 			sc.Argv[len(sc.Argv)-1] = "./" + sc.Argv[len(sc.Argv)-1]
 			sc.Note += "|dot-slash"
 		}
+	case 7:
+		// unusual but legal file names: gen_<base>.go follows the whole base name
+		if len(sc.Argv) > 0 {
+			last := sc.Argv[len(sc.Argv)-1]
+			if strings.HasSuffix(last, ".fo") {
+				b, _ := sc.Disk.Get(filepath.Clean(last))
+				nn := filepath.Join(filepath.Dir(last), r.Pick("a.b.c.fo", "shapes.types.fo", ".fo", "x y.fo", "gen_x.fo", "UPPER.fo", "m.fo.fo", "日本.fo"))
+				sc.Disk.Put(nn, b, "renamed "+last)
+				sc.Argv[len(sc.Argv)-1] = nn
+				sc.Note += "|odd-name"
+			}
+		}
+	case 8:
+		if len(sc.Argv) > 0 {
+			last := sc.Argv[len(sc.Argv)-1]
+			b, _ := sc.Disk.Get(filepath.Clean(last))
+			sc.Disk.Put("odd/name.FO", b, "copy of "+last)
+			sc.Argv[len(sc.Argv)-1] = "odd/name.FO"
+			sc.Note += "|upper-suffix"
+		}
 	}
 	// stale outputs
 	if r.Chance(1, 3) {
 		for _, a := range sc.Argv {
 			if o, ok := outputFor(a); ok && r.Chance(2, 3) {
-				sc.Disk.Put(filepath.Clean(o), []byte("// stale output of an earlier run\npackage main\n"), "stale")
+				stale := "// stale output of an earlier run\npackage main\n"
+				if r.Chance(1, 2) { // longer than the new output: the old tail must not survive
+					stale += strings.Repeat("// left over from an earlier, much longer translation of this file\n", 700)
+				}
+				sc.Disk.Put(filepath.Clean(o), []byte(stale), "stale")
 			}
 		}
 		sc.Note += "|stale"
@@ -509,6 +562,21 @@ func checkC16(tier string) {
 		}
 	}
 
+	// seam fidelity / the real file system: the shipped binary on a real directory for a sample of the fault-free twins
+	c.phase("shipped fc on real directories")
+	nReal := n / 25
+	routs := parallel(c, nReal, func(k int) outcome {
+		sc := bases[k*25].Clone()
+		sc.Real = true
+		sc.TickBudget = budget
+		c.count("real_directory_runs", 1)
+		return outcome{sc, judgeC16(c, sc)}
+	}, nil)
+	for _, o := range routs {
+		if o.v != nil {
+			bads = append(bads, bad{o.sc, o.v})
+		}
+	}
 	// permanent corpus: replays of fixed and known findings and hand-kept boundary scenarios
 	if ents, err := os.ReadDir(filepath.Join(verifDir, "corpus", "c16")); err == nil {
 		for _, e := range ents {
@@ -565,4 +633,48 @@ func checkC16(tier string) {
 			"which diagnostic is printed, and acceptance of damaged input that still parses, are not judged"},
 		violations)
 	finish(c, violations)
+}
+
+// loopOwner: the child prints two stack samples about a million ticks apart when the budget runs out. The
+// frames they share from the outside in end at the function whose loop (or unbounded recursion) does not
+// terminate; that function is the signature of the finding. Returns it and the last shared frames.
+func loopOwner(stderr string) (string, []string) {
+	a, b := stderr, ""
+	if i := strings.Index(stderr, "=== verif stack 2 ==="); i >= 0 {
+		a, b = stderr[:i], stderr[i:]
+	}
+	rev := func(s string) []string {
+		var fs []string
+		for _, f := range stackFuncs(s) {
+			if f != "main.verifTick" {
+				fs = append(fs, f)
+			}
+		}
+		for i, j := 0, len(fs)-1; i < j; i, j = i+1, j-1 {
+			fs[i], fs[j] = fs[j], fs[i]
+		}
+		return fs
+	}
+	fa, fb := rev(a), rev(b)
+	if len(fa) == 0 {
+		return "?", nil
+	}
+	if len(fb) == 0 {
+		return fa[len(fa)-1], tailStrs(fa, 5)
+	}
+	n := 0
+	for n < len(fa) && n < len(fb) && fa[n] == fb[n] {
+		n++
+	}
+	if n == 0 {
+		return "?", nil
+	}
+	return fa[n-1], tailStrs(fa[:n], 5)
+}
+
+func tailStrs(xs []string, n int) []string {
+	if len(xs) > n {
+		return xs[len(xs)-n:]
+	}
+	return xs
 }
